@@ -1,7 +1,7 @@
 (* Extract.v -- extraction of the executable model for the correspondence check.
    Only ExtrOcamlBasic is used (bool, option, unit, list, prod, sumbool -> OCaml natives);
    N, positive, Z, nat stay Coq inductives.  No Extract Constant of our own. *)
-Require Import Base CharSet Partition LoopRange Regex Inclusion Constructors Deriv Explore Automaton Minimizer Compile Denote.
+Require Import Base CharSet Partition LoopRange Regex Inclusion Constructors Deriv Explore Automaton Minimizer Compile Denote StrConv.
 Require Extraction.
 Require Import ExtrOcamlBasic.
 Extraction "extracted/model.ml"
@@ -21,4 +21,10 @@ Extraction "extracted/model.ml"
   compile_with_bound remove_unreachable pick_alphabet combined_partition compile_successors ct_eval minimize
   b_new b_mark_final b_set_default b_add_transition build build_unchecked a_next a_state a_accepts a_str_next edges
   (* denotation / oracle *)
+  (* loop ranges *)
+  lr_validb lr_finite lr_infinite lr_opt lr_star lr_plus lr_point lr_is_finite lr_is_infinite
+  lr_is_point lr_is_zero lr_is_one lr_is_all lr_start lr_eqb lr_contains lr_includes lr_add
+  lr_add_point lr_scale lr_mul lr_rmie lr_shift
+  (* strings *)
+  str_lt str_le str_is_digit str_to_code str_from_code str_to_int str_from_int
   mref p_smtrange p_concat_list p_union_list p_inter_list p_diff_list p_sderiv goodwb.
